@@ -77,6 +77,11 @@ def oracle(ctx, obs):
         s = o["samples"]
         fpm = abs(cx(s[0]["v"]))
         ff0 = f64_of_hex(s[0]["ff"])
+        if not abs(ff0) < 1e-6:
+            # the bracketing found a sign change of Delta k_z that is not a zero (a jump of the refractive index along the ray): this
+            # direction has no located point of perfect phase matching, the property says nothing about it
+            ctx.count("no_located_pm_point")
+            continue
         ctx.count(f"{st['crystal']}/{st['pm_type']}/{'poled' if st['poled'] else 'angle'}")
         ctx.count("walkoff:" + ("none" if q["x"] < 1e-6 else "negligible" if q["x"] <= WALKOFF_NEGLIGIBLE_X else "significant"))
         desc = dict(st)
@@ -85,7 +90,7 @@ def oracle(ctx, obs):
                      "omega_i_pm": f64_of_hex(o["p"]["omega_i"])})
         # clause 2: magnitude at perfect phase matching
         ctx.seen(("peak", o["p"]["L"], o["p"]["wpx"], o["p"]["wsx"], o["p"]["wix"], o["dir_rad"]))
-        if abs(ff0) < 1e-6 and abs(fpm - q["peak_expected"]) > TOL * q["peak_expected"]:
+        if abs(fpm - q["peak_expected"]) > TOL * q["peak_expected"]:
             ctx.violation("S5", f"|phasematch_fiber_coupling| at perfect phase matching is {fpm!r}, expected (4/Sigma) sqrt(pi) erf(x)/(2x) = "
                           f"{q['peak_expected']!r} (relative difference {abs(fpm - q['peak_expected']) / q['peak_expected']:.3e} > 1e-3)",
                           {"kind": "peak", "crystal": st["crystal"], "pm_type": st["pm_type"]},
@@ -94,6 +99,9 @@ def oracle(ctx, obs):
         for smp in s[1:]:
             ff = f64_of_hex(smp["ff"])
             v = abs(cx(smp["v"]))
+            if not abs(ff) <= 3.3 * math.pi * 1.001:
+                ctx.count("sample_outside_three_lobes")
+                continue
             ctx.seen(("pw", o["p"]["L"], o["p"]["wpx"], smp["t"], o["dir_rad"]))
             ratio = v / fpm if fpm else float("nan")
             sinc = abs(math.sin(ff) / ff) if ff else 1.0
